@@ -1434,7 +1434,8 @@ class Obj(Container):
         if self.name == tensor_names.fock:
             space = self.space
             assert len(space) == 2
-            if space[0] == space[1]:  # diagonal block
+            # a general index covers the occupied and the virtual space
+            if space[0] == space[1] or "g" in space:  # diagonal block
                 bl_diag = self.sympy
             else:  # off diagonal block
                 bl_diag = 0
